@@ -114,7 +114,7 @@ Fixpoint native_events (nt : natives) (evs : list event) (files : list zs) : boo
   | (_, req, (k, _, _)) :: r, f :: fr =>
     (if is_file_or_dir_path req then true else
      match spec_native nt req with
-     | Some (Some marker) => (k =? 0) && (zs_eqb f marker || (match f with [] => true | _ => false end))
+     | Some (Some marker) => ((k =? 0) && (zs_eqb f marker || (match f with [] => true | _ => false end))) || (k =? 5)   (* or the loader itself threw *)
      | Some None => k =? 3
      | None => true
      end) && native_events nt r fr
